@@ -283,6 +283,16 @@ def guardFinite (isFinite : α → Bool) : Option (Vec α) → Option (Vec α)
   | none => none
   | some w => if w.all isFinite then some w else none
 
+/-- what `score_psms` does to the two fields it writes (`discriminant_score`, `posterior_error`), as a
+    function of their old values: both early exits (`train(..)?` and the finite-eigenvector guard)
+    return `None` BEFORE the write-back loop, so the PSMs keep their old values; otherwise every PSM
+    gets `(score, pepOf score)` (`pepOf` = the KDE posterior of C14, a parameter here) -/
+def scorePsmsOutcome (c : Consts α) (sqrt : α → α) (isFinite : α → Bool) (pepOf : α → α)
+    (feats : Mat α) (decoy : List Bool) (p : Nat) (old : List (α × α)) : Option Unit × List (α × α) :=
+  match guardFinite isFinite (train c sqrt feats decoy p) with
+  | none => (none, old)
+  | some w => (some (), (score w feats).map fun s => (s, pepOf s))
+
 /-- the heuristic fallback of `Runner::spectrum_fdr`:
     `(-poisson as f32).ln_1p() + longest_y_pct / 3.0`; `ln1p` and the `f64 → f32` cast are parameters -/
 def fallback {β : Type} [Neg β] (cast : β → α) (ln1p : α → α) (three : α) (poisson : β) (longestYPct : α) : α :=
